@@ -515,17 +515,18 @@ class sptensor:
         dims, _ = tt_dimscheck(self.ndims, dims=dims)
         remdims = np.setdiff1d(np.arange(0, self.ndims), dims)
 
+        vals = self.vals.reshape(-1)
+        if vals.dtype == np.bool_ or np.issubdtype(vals.dtype, np.integer):
+            # (combined in the platform integer: a sum of values of a narrow integer
+            # type need not fit that type)
+            wide = np.uint if np.issubdtype(vals.dtype, np.unsignedinteger) else np.int_
+            vals = vals.astype(np.result_type(vals.dtype, wide))
+
         # Check for the case where we accumulate over *all* dimensions
         if remdims.size == 0:
             if self.vals.size == 0:
                 # as in the other branches, a slice without stored entries collapses to 0
                 return 0.0
-            vals = self.vals.reshape(-1)
-            if vals.dtype == np.bool_ or np.issubdtype(vals.dtype, np.integer):
-                # (combined in the platform integer, as in the other branches: a sum of
-                # values of a narrow integer type need not fit that type)
-                wide = np.uint if np.issubdtype(vals.dtype, np.unsignedinteger) else np.int_
-                vals = vals.astype(np.result_type(vals.dtype, wide))
             result = function_handle(vals)
             if isinstance(result, np.generic):
                 result = result.item()
@@ -539,7 +540,7 @@ class sptensor:
             if self.subs.size > 0:
                 return accumarray(
                     self.subs[:, remdims].transpose()[0],
-                    self.vals.transpose()[0],
+                    vals,
                     size=newsize[0],
                     func=function_handle,
                 )
